@@ -121,6 +121,17 @@ def replay(rp):
     import replaylib
     out = {'reproduced': False, 'runs': []}
     exe = replaylib.build_header_only('replay/C20_replay.cpp', 'C20_replay')
+    if 'update' in rp['target']:
+        # counting-rule violations of update(): probe lists (integer- and real-valued, with ties, fractional and repeated
+        # thresholds) around the solver's threshold / value witnesses
+        probes = [('i', [-1.5, 0.5, 2.5], [-3, -2, -1, 0, 0, 1, 2, 2, 3]), ('d', [-1.5, 0.5, 2.5], [-3, -2, -1.5, 0, 0.5, 1, 2, 2.5, 3]),
+                  ('i', [2.0, 2.0], [1, 2, 2, 3]), ('d', [0.25], [0.0, 0.25, 0.5]), ('i', [0.5], [0, 0, 1])]
+        for kind, th, vals in probes:
+            rc, so, se = replaylib.run_driver(exe, ['hist', kind, len(th)] + [repr(float(t)) for t in th] + [repr(x) for x in vals])
+            out['runs'].append({'values': kind, 'thresholds': th, 'list': vals, 'exit': rc, 'output': so.strip()[-600:]})
+            if rc == 1:
+                out['reproduced'] = True
+        return out
     for fo in rp['failed_obligations']:
         ce = fo.get('counterexample') or {}
         v = ce.get('value')
